@@ -99,10 +99,6 @@ int vp_case(Choice& c, Report& rep) {
       }
       s.maxb = c05::gen_maxbytes(c, pred);
       if (s.maxb == 7 && c.byte() == 255) s.maxb = 0;   // rare: outside the stated domain, must be rejected
-      // Known finding C05F1: VBR, 80/120 ms packets coded as 2 x 40/60 ms SILK frames; the per-frame budget
-      // min(bitrate*T_frame/8, (M-1)/2) is not capped at 1276, a SILK frame longer than 1275 bytes makes
-      // opus_encode() return OPUS_INTERNAL_ERROR.  Avoided by construction: keep (M-1)/2 <= 1276.
-      if (c05::f1_class(vbr, b, Fs, dur, s.maxb) && rep.exclude("C05F1")) s.maxb = 2553;
       int la = c.irange(0, 3);
       s.layout = la & 1; s.api = la >> 1;
       if (nseg < 3 && c.chance(14)) { seg = nseg++; }
